@@ -61,8 +61,6 @@ NU(p) == Len(Progs[p].user)
 \* ------------------------------------------------------------------ the scene of an assignment
 \* yaw noise: R' = Rz(k quarter turns) R  (yaw is the first intrinsic angle)
 RzQ == <<<<0, -1, 0>>, <<1, 0, 0>>, <<0, 0, 1>>>>
-MatMul(A, B) == [r \in 1..3 |-> [c \in 1..3 |-> A[r][1] * B[1][c] + A[r][2] * B[2][c] + A[r][3] * B[3][c]]]
-SameMat(A, B) == \A r \in 1..3, c \in 1..3 : A[r][c] = B[r][c]
 RECURSIVE RzPow(_)
 RzPow(k) == IF k = 0 THEN <<<<1, 0, 0>>, <<0, 1, 0>>, <<0, 0, 1>>>> ELSE MatMul(RzQ, RzPow(k - 1))
 YawAddT == [rk \in (1..NR) \X (0..3) |-> CHOOSE r2 \in 1..NR : SameMat(Rots[r2], MatMul(RzPow(rk[2]), Rots[rk[1]]))]
@@ -198,6 +196,15 @@ TruthAsImplemented3(p, a, j) ==
   IF OccluderTrigger(p, j)
   THEN (IF r.k = "V" THEN Visible3(p, a, r.a, r.b, {}) ELSE Not3(Visible3(p, a, r.a, r.b, {})))
   ELSE Truth3(p, a, r)
+
+(* As-implemented deviation (known finding "validate-random-property-crash"): Scenario.validate() *)
+(* calls container.containsObject(obj) on every object whose bounds are static (fixed position, *)
+(* orientation, shape, dimensions, no mutation); when such an object has some OTHER random       *)
+(* property (here: allowCollisions) the call returns a distribution and `not <distribution>`     *)
+(* raises RandomControlFlowError: the program does not compile although it has valid scenes.     *)
+StaticBounds(p, o) == /\ Len(Objs(p)[o].pos) = 1 /\ Len(Objs(p)[o].rot) = 1 /\ Len(Objs(p)[o].shapes) = 1
+                      /\ Len(Objs(p)[o].noise) = 1 /\ Len(Objs(p)[o].ynoise) = 1
+ValidateCrashTrigger(p) == \E o \in 1..NO(p) : StaticBounds(p, o) /\ Len(Objs(p)[o].allow) > 1 /\ ContainerOf(p, o) # 0
 
 \* ------------------------------------------------------------------ assignments
 Opt(p, o) == (1..Len(Objs(p)[o].pos)) \X (1..Len(Objs(p)[o].rot)) \X (1..Len(Objs(p)[o].allow))
@@ -338,6 +345,7 @@ EmitJudged ==
                     asimpl |-> [j \in 1..NRq(pid) |-> TruthAsImplemented3(pid, asg, j)],
                     trig |-> [j \in 1..NRq(pid) |-> OccluderTrigger(pid, j)],
                     basic |-> SetToSortSeq(BasicTargets(pid) \cap ActiveNow, <),
+                    vcrash |-> ValidateCrashTrigger(pid),
                     ok |-> okv,
                     must |-> IF NoFree THEN MustVerdict ELSE "free"]))
 =============================================================================
